@@ -196,7 +196,8 @@ Qed.
 Theorem C03_inplace_frame_repaired r cfg op a o x o' :
   c_f14 cfg = false → q_ibin cfg r op a o = Ok (x, o') → o' = o.
 Proof. intros C H. apply (ibin_frame r cfg op a o x o' H). left. exact C. Qed.
-(** as coded (F14): with autoconvert_offset_to_baseunit, [a *= b] leaves [b] (degC) in kelvin *)
+(** as it was coded (F14, repaired in /repo by 243cd48; switch [c_f14 = true]): with
+    autoconvert_offset_to_baseunit, [a *= b] leaves [b] (degC) in kelvin *)
 Theorem C03_inplace_frame_refuted :
   ∃ cfg a b, c_autoconv cfg = true ∧ c_f14 cfg = true ∧
     ∃ x b', q_ibin cfg default_reg OMul a (Qty b) = Ok (x, Qty b') ∧ q_u b' ≠ q_u b.
